@@ -67,9 +67,12 @@ def class_source(c, classes):
         else:
             params.append(f"InputTaskParameter({ref})")
     lines.append(f"        parameters = [{', '.join(params)}]")
-    ret = {'json': 'dict', 'memory': 'dict', 'dir': 'DirData', 'continues': 'ContinuesData'}.get(c['data'], 'dict')
+    ret = {'json': 'dict', 'memory': 'dict', 'dir': 'DirData', 'continues': 'ContinuesData', 'numpy': 'np.ndarray',
+           'pandas': 'pd.DataFrame', 'generated': 'Generator', 'listnumpy': 'list'}.get(c['data'], 'dict')
     if c['data'] == 'memory':
         lines.append('        data_class = InMemoryData')
+    if c['data'] == 'listnumpy':
+        lines.append('        data_class = ListOfNumpyData')
     lines.append(f"    def run(self) -> {ret}:")
     lines.append(f"        return _run(self, {c['id']})")
     return '\n'.join(lines) + '\n'
@@ -109,7 +112,10 @@ def make_module(classes):
     src = ('from pathlib import Path\n'
            'from taskchain import Task, Parameter, InMemoryData\n'
            'from taskchain.parameter import InputTaskParameter\n'
-           'from taskchain.data import DirData, ContinuesData\n'
+           'from taskchain.data import DirData, ContinuesData, ListOfNumpyData\n'
+           'from typing import Generator\n'
+           'import numpy as np\n'
+           'import pandas as pd\n'
            'from tcv.values import materialize as _mat\n'
            'from tcv.pipeline import provenance as _run\n\n')
     order = sorted(classes, key=lambda c: c['id'])
